@@ -1028,6 +1028,9 @@ class Interp(object):
     def eval_DictComp(self, node, frame):
         sub = self.comp_frame(frame)
         first = self.eval(node.generators[0].iter, frame)
+        tbl = self._dictcomp_over_counted_seq(node, first, sub)
+        if tbl is not None:
+            return tbl
         d = DictVal()
         fake = ast.ListComp(elt=node.key, generators=node.generators)
 
@@ -1036,6 +1039,49 @@ class Interp(object):
             v = self.eval(node.value, fr)
             self.dict_set(d, k, v)
         self._comp(fake, first, sub, emit)
+        return d
+
+    def _dictcomp_over_counted_seq(self, node, first, sub):
+        """Engine rule:  {c: V(x, c) for x, c in zip(xs, count(a, s))}  over a symbolic sequence xs and a
+        concrete step s > 0 is the dictionary with exactly the keys a, a+s, .., a+s*(|xs|-1), the
+        key a+s*j bound to V(xs[j], a+s*j) (keys are pairwise distinct, so no binding shadows
+        another).  Returned as an abstractly given dictionary (background function)."""
+        g = node.generators[0]
+        if len(node.generators) != 1 or g.ifs or not (isinstance(first, IterSource) and first.kind == 'zip'
+                                                       and len(first.data) == 2):
+            return None
+        xs, cnt = first.data
+        if not (isinstance(xs, SeqVal) and self.seq_len_unknown(xs) and isinstance(cnt, IterSource)
+                and cnt.kind == 'count'):
+            return None
+        if not (isinstance(g.target, ast.Tuple) and len(g.target.elts) == 2 and
+                all(isinstance(e, ast.Name) for e in g.target.elts) and isinstance(node.key, ast.Name)
+                and node.key.id == g.target.elts[1].id):
+            return None
+        a, s = cnt.data
+        s = smt.as_concrete_int(s)
+        if s is None or s <= 0:
+            return None
+        from .values import int_term
+        m = z3.Length(xs.term)
+        at = int_term(a)
+        d = DictVal()
+        d.size = m
+        d.keys_max = z3.simplify(at + s * (m - 1))
+        interp = self
+
+        def base(it2, key):
+            k = int_term(key)
+            cond = z3.And(k >= at, k < at + s * m, (k - at) % s == 0)
+            if not it2.p.branch(cond):
+                return False, None
+            j = z3.simplify((k - at) / s)
+            it2.p.assume(z3.And(j >= 0, j < m, at + s * j == k))
+            x = it2.seq_index(xs, j)
+            fr = interp.comp_frame(sub)
+            interp.assign(g.target, (x, key), fr)
+            return True, interp.eval(node.value, fr)
+        d.base = base
         return d
 
     def eval_SetComp(self, node, frame):
